@@ -23,6 +23,27 @@ Inputs: the shared generated pipeline (levels 0-2, compressed or not, 1-4 subset
 on factors, chained attributes, 221, zero-count replications, replicated marker operators), files of tests/data
 and a sample of tests/benchmark_data  x  all child/attribute paths that exist in the wired tree up to depth 6
 (driver op `paths`)  x  slices at one or two steps  x  subset selectors, plus bare ids and `>` variants.
+Second round (harness/c16gen.py):
+  slice space   every message: the sites of its node tree (prefix, separator, id, number n of nodes of that id in one
+                sibling list, kind of list) are enumerated on the implementation's tree and slices are drawn from the
+                grid RELATIVE TO n (start, stop in {none, -(n+1) .. n+1}, step in {none, 1, 2, -1, -2}, indices
+                -(n+1) .. n+1), for `/`, `.` and `>` steps; n = 0 sites from ids that occur elsewhere in the message;
+                grid shapes: templates built so that sibling lists with exactly 1..6 nodes of one id exist at the
+                template top level, in one block of a fixed / delayed replication, nested, among the members of
+                Table D sequences, as repeated composite nodes, in the attribute list of an element / a factor (0..6
+                quality-information / substituted / first-order / difference / replaced values of one id), repeated
+                values pairwise distinct: the WHOLE grid at one site per (step kind, n), n = 0..6, and as `@`
+                selector for 1..6 subsets (which list kinds / storage form carry the whole grid rotates with the seed
+                in the quick tier; the thorough tier takes all); a sample of the grid at every other site;
+  bitmaps       random templates with one to four bitmap constructs of every operator kind (222 / 223 / 224 / 225 /
+                232, 236 / 237000 / 237255 / 235000) whose data-present bits are drawn per subset: equal number of
+                zero bits in another arrangement (equal flat descriptors, different owners), other numbers of zero
+                bits under a delayed or a smaller fixed count, equal bits; 2-6 subsets; every query also under `@[i]`
+                for every i and under reversed / tail / every-second selectors;
+  pool          random nested templates over three element ids with replication counts drawn per subset.
+All oracles and the model correspondence run on all of them; json-eval, bare-id and selector additionally on a copy of
+the template data whose values are replaced by the tag 'subset:flat position' (replication factors keep their value):
+the comparison then tells WHICH node was selected even when neighbouring values are equal or missing.
 Templates the wiring pass does not understand (open findings of C09/C07: an associated field in force over
 203 / 206 / marker / 008023, resumed class-33 runs) are excluded by the structural signatures of C09.
 """
@@ -31,14 +52,18 @@ import multiprocessing
 import os
 import random
 import re
+import time
+import zlib
 
 from harness import core, tables_io
+from harness import c16gen as G
 from harness import coder_io as C
 from harness import coderprops as P
 from harness import views_io as V
 from harness.props import c09 as K9
 
 PROP = 'C16'
+GRID_DONE = {}     # (step kind, n) -> sliced queries of a whole-grid site evaluated in this run
 
 META = dict(
     claimed=True,
@@ -55,7 +80,12 @@ META = dict(
          'Spec.evalPath on the model\'s nested JSON with the model query and the model with the implementation on every '
          'query, and the oracle compares the implementation with an evaluator over its own nested JSON, its flat lists '
          'filtered by label, post-hoc subset selection, the compressed/uncompressed and compiled/plain decodings, on '
-         'generated messages, the C09 shapes and the sample files x all existing paths up to depth 6 x slices x selectors.',
+         'generated messages, the C09 shapes and the sample files x all existing paths up to depth 6 x slices x selectors. '
+         'Slices are drawn from the grid relative to the number n of matches at the step (start, stop in none, -(n+1)..n+1; step in '
+         'none, 1, 2, -1, -2; indices): the whole grid for n = 0..6 at child, attribute and descendant steps and at the @ selector '
+         '(1..6 subsets) on templates built to have sibling lists with exactly n matches, a sample at the sites of every other '
+         'message; messages include 2-6 subsets of equal structure whose bitmaps (222/223/224/225/232, 236/237, 235) differ, and '
+         'the json-eval / bare-id / selector oracles also run on a copy whose values are replaced by their flat positions.',
     technique='Lean 4 theorems (structural induction over the node tree / the path, list reasoning about enumerate-filter-'
               'slice-sort) + checked model/implementation correspondence + property oracle on the implementation '
               '(query vs evaluator over the implementation\'s own nested JSON)',
@@ -185,6 +215,56 @@ def flatten(x):
         else:
             out.append(e)
     return out
+
+
+class _Lazy(dict):
+    def __init__(self, f):
+        dict.__init__(self)
+        self.f = f
+
+    def __missing__(self, k):
+        v = self[k] = self.f(k)
+        return v
+
+    def get(self, k, default=None):
+        return self[k]
+
+
+class _Box(object):
+    def __init__(self, value):
+        self.value = value
+
+
+class _TaggedMessage(object):
+    """what DataQuerent.query reads of a message, over a copy of the template data in which every value is replaced
+    by the tag 'subset:flat index' (replication factors keep their value: the renderer cuts the repetitions by it)"""
+
+    def __init__(self, msg):
+        import copy
+        from pybufrkit import templatedata as T
+        td = msg.template_data.value
+        comp = bool(msg.is_compressed.value)
+
+        def factors(nodes, acc):
+            for n in nodes:
+                if isinstance(n, T.DelayedReplicationNode) and n.factor is not None:
+                    acc.add(n.factor.index)
+                if hasattr(n, 'members'):
+                    factors(n.members, acc)
+            return acc
+
+        keep = {}
+        vals = []
+        for s_, vs in enumerate(td.decoded_values_all_subsets):
+            k = 0 if comp else s_
+            if k not in keep:
+                keep[k] = factors(td.decoded_nodes_all_subsets[k], set())
+            vals.append([v if i in keep[k] else '%d:%d' % (s_, i) for i, v in enumerate(vs)])
+        td2 = copy.copy(td)
+        td2.decoded_values_all_subsets = vals
+        self.n_subsets = _Box(msg.n_subsets.value)
+        self.is_compressed = _Box(comp)
+        self.template_data = _Box(td2)
 
 
 def tree_paths(nodes, depth=MAX_DEPTH):
@@ -323,6 +403,22 @@ def gen_queries(rng, paths, labels, n_subsets, budget):
     return out[:budget + 8]
 
 
+def sweep_selectors(rng, queries, n_sub):
+    """every query without selector also under `@[i]` for every subset i and under a few slice selectors (reversed,
+    tail, every second): the result must be the restriction of the unselected one, whatever was selected before"""
+    out = list(queries)
+    seen = set((s_, b_) for (_, s_, b_) in queries)
+    sels = ['@[%d]' % i for i in range(min(n_sub, 6))] + ['@[::-1]', '@[1:]', '@[::2]', '@[-2:]', '@[1::-1]']
+    for kind, sel, body in queries:
+        if sel or ('[' in body and rng.random() < 0.6):
+            continue
+        for s_ in sels:
+            if (s_, body) not in seen:
+                seen.add((s_, body))
+                out.append((kind, s_, body))
+    return out
+
+
 # ---------------------------------------------------------------------------------------------
 # comparison helpers
 def same_nested(impl, model):
@@ -379,7 +475,10 @@ def evaluate(task):
     max_values=int, queries=None|[(kind, sel, body)])
     -> dict(skip=..)| dict(findings=[..], queries=[..], counts={..})"""
     try:
-        return _evaluate(task)
+        t0 = time.time()
+        r = _evaluate(task)
+        r['_time'] = time.time() - t0
+        return r
     except core.MachineryError as e:
         return {'harness_error': 'machinery: %s' % e}
     except Exception:  # noqa
@@ -436,6 +535,7 @@ def _evaluate(task):
         findings.append({'kind': kind, 'stage': stage, 'why': why, 'query': expr, 'empty_selection_on_compressed': flag})
 
     impl = {}
+    cells = {}
     # -- the paths that exist: model enumeration vs the implementation's tree
     rng = random.Random(task['seed'])
     if task.get('queries') is None:
@@ -453,17 +553,47 @@ def _evaluate(task):
             finding('correspondence', 'paths', 'existing paths differ (model %d, implementation %d): %s' % (len(mpaths), len(ipaths), d), None)
         labels = set(str(d) for i in sub_pick for d in td.decoded_descriptors_all_subsets[i])
         queries = gen_queries(rng, mpaths, labels, n_sub, task['budget'])
+        if task.get('sweep'):
+            queries = sweep_selectors(rng, queries, n_sub)
+        if task.get('grid'):
+            # the slice space relative to the number of matches at every kind of step (harness/c16gen.py); fewer
+            # queries on long subsets (the model walks the whole tree for every `>` query)
+            if lens and max(lens) > 2000:
+                task = dict(task, grid=dict(task['grid'], max_sites=2, sample=4, zero_sites=0))
+            sites, valued = G.merge_sites([G.enum_sites(td.decoded_nodes_all_subsets[i], MAX_DEPTH)
+                                           for i in ([0] if comp else sub_pick)])
+            gq, cells = G.site_queries(rng, sites, valued, labels, n_sub, task['grid'])
+            seen = set((s_, b_) for (_, s_, b_) in queries)
+            queries += [q for q in gq if (q[1], q[2]) not in seen]
         for p in mpaths:
             cnt('depth-%d' % len(split_path(p)))
+        if task.get('part'):
+            # one of K tasks on the same message: the queries are dealt out by their body (a query under a selector
+            # stays with the unselected one)
+            k_, K_ = task['part']
+            queries = [q for q in queries if zlib.crc32(q[2].encode()) % K_ == k_]
     else:
         queries = [tuple(q) for q in task['queries']]
     exprs = [sel + body for (_, sel, body) in queries]
+    if not comp and any(td.decoded_descriptors_all_subsets[i] == td.decoded_descriptors_all_subsets[j] and
+                        td.bitmap_links_all_subsets[i] != td.bitmap_links_all_subsets[j]
+                        for i in range(min(n_sub, 8)) for j in range(i)):
+        cnt('messages:equal-descriptors-different-bitmap-links')
 
-    # -- implementation results
+    # -- implementation results, on the message and on its copy with the values replaced by their positions
     for e in exprs:
         impl[e] = impl_query(msg, e)
+    tmsg = _TaggedMessage(msg)
+    try:
+        nested_t = NestedJsonRenderer().render(tmsg.template_data.value)
+    except Exception as e:  # noqa
+        raise core.MachineryError('rendering of the tagged copy fails: %r' % (e,))
+    impl_t = _Lazy(lambda e: impl_query(tmsg, e))    # evaluated where an oracle looks at it
+    views = [('', impl, nested, td.decoded_values_all_subsets),
+             ('on the copy with the values replaced by their flat positions: ', impl_t, nested_t,
+              tmsg.template_data.value.decoded_values_all_subsets)]
     # -- the model
-    mr = core.Driver().batch([treq, dict(base, op='query', paths=exprs)], timeout=1200)[1]
+    mr = core.Driver().batch([treq, dict(base, op='query', paths=exprs)], timeout=3600)[1]   # long subsets on a loaded machine: 1200 s measured
     if mr.get('wire') != 'ok':
         finding('correspondence', 'wire', 'implementation wires, model: %s' % mr.get('wire'), None)
         return {'findings': findings, 'queries': [], 'counts': counts, 'n_subsets': n_sub, 'compressed': comp}
@@ -521,7 +651,7 @@ def _evaluate(task):
     for (kind, sel, body), e, m in zip(queries, exprs, mr['res']):
         r = impl[e]
         info = {'q': e, 'kind': kind, 'err': r if isinstance(r, str) else None,
-                'nonempty': (not isinstance(r, str)) and any(v for v in r[1])}
+                'nonempty': (not isinstance(r, str)) and any(v for v in r[1]), 'cell': cells.get(e)}
         qinfo.append(info)
         if m.get('parse') != 'ok':
             if r != 'err:' + m['parse']['err']:
@@ -536,38 +666,46 @@ def _evaluate(task):
             if m['spec'] != m['q'] and not (isinstance(m['spec'], dict) and isinstance(m['q'], dict)):
                 finding('correspondence', 'model-vs-spec', 'model query %s, Spec.evalPath %s' % (json.dumps(m['q'])[:200], json.dumps(m['spec'])[:200]), e)
         np_ = parse_path(e)
-        # oracle 1: evaluation over the implementation's own nested JSON
-        if kind == 'ca':
-            want = eval_message(nested, np_)
-            if not strict_result_equal(r, want):
-                finding('oracle', 'json-eval', 'query %s, evaluation over the nested JSON %s' % (show(r), show(want)), e)
-        # oracle 2: bare id of an ordinary element = flat filter
+        selx = select_subsets(np_.subset_slice, n_sub)
         lab = body.lstrip('>')
         if kind == 'bare' and lab in noval_labels:
             cnt('bare-id-on-valueless-node')
-        if kind == 'bare' and lab not in attr_labels and lab not in noval_labels and order_ok:
-            selx = select_subsets(np_.subset_slice, n_sub)
-            if isinstance(selx, str):
-                want = selx
-            else:
-                want = (selx, [[v for d, v in zip(td.decoded_descriptors_all_subsets[i], td.decoded_values_all_subsets[i]) if str(d) == lab]
-                               for i in selx])
-            got = r if isinstance(r, str) else (r[0], [flatten(v) for v in r[1]])
+        ordinary = kind == 'bare' and lab not in attr_labels and lab not in noval_labels and order_ok
+        if ordinary:
             info['ordinary'] = True
-            if not strict_result_equal(got, want):
-                finding('oracle', 'bare-id', 'flattened query %s, flat data filtered by label %s' % (show(got), show(want)), e)
-        # oracle 3: the selector restricts the result of the unselected query
-        if sel:
-            r0 = impl.get(body)
-            if r0 is not None and not isinstance(r0, str):
-                selx = select_subsets(np_.subset_slice, n_sub)
+        failed = set()
+        for vname, res, nst, vals in views:
+            if not (kind == 'ca' or ordinary or (sel and body in impl and not isinstance(impl[body], str))):
+                break
+            rv = res[e]
+            # oracle 1: evaluation over the implementation's own nested JSON
+            if kind == 'ca' and 'json-eval' not in failed:
+                want = eval_message(nst, np_)
+                if not strict_result_equal(rv, want):
+                    failed.add('json-eval')
+                    finding('oracle', 'json-eval', '%squery %s, evaluation over the nested JSON %s' % (vname, show(rv), show(want)), e)
+            # oracle 2: bare id of an ordinary element = flat filter
+            if ordinary and 'bare-id' not in failed:
                 if isinstance(selx, str):
                     want = selx
                 else:
-                    by = dict(zip(r0[0], r0[1]))
-                    want = (selx, [by[i] for i in selx])
-                if not strict_result_equal(r, want):
-                    finding('oracle', 'selector', 'with selector %s, selecting afterwards %s' % (show(r), show(want)), e)
+                    want = (selx, [[v for d, v in zip(td.decoded_descriptors_all_subsets[i], vals[i]) if str(d) == lab] for i in selx])
+                got = rv if isinstance(rv, str) else (rv[0], [flatten(v) for v in rv[1]])
+                if not strict_result_equal(got, want):
+                    failed.add('bare-id')
+                    finding('oracle', 'bare-id', '%sflattened query %s, flat data filtered by label %s' % (vname, show(got), show(want)), e)
+            # oracle 3: the selector restricts the result of the unselected query
+            if sel and 'selector' not in failed:
+                r0 = res.get(body) if body in impl else None
+                if r0 is not None and not isinstance(r0, str):
+                    if isinstance(selx, str):
+                        want = selx
+                    else:
+                        by = dict(zip(r0[0], r0[1]))
+                        want = (selx, [by[i] for i in selx])
+                    if not strict_result_equal(rv, want):
+                        failed.add('selector')
+                        finding('oracle', 'selector', '%swith selector %s, selecting afterwards %s' % (vname, show(rv), show(want)), e)
         # oracle 4/5: other storage / other decoder, same results
         for name, m2 in alt_msgs.items():
             r2 = impl_query(m2, e)
@@ -649,13 +787,14 @@ def absorb(ctx, task, res, ids, tag, name=None):
     if 'skip' in res:
         ctx.count('skipped:' + res['skip'])
         return
-    ctx.count('messages')
-    ctx.count('messages:' + tag)
-    ctx.count('compressed' if res['compressed'] else 'uncompressed')
-    for k, v in res['counts'].items():
-        ctx.count(k, v)
-    if res.get('has_attr'):
-        ctx.count('messages-with-attributes')
+    if (task.get('part') or (0, 1))[0] == 0:
+        ctx.count('messages')
+        ctx.count('messages:' + tag)
+        ctx.count('compressed' if res['compressed'] else 'uncompressed')
+        for k, v in res['counts'].items():
+            ctx.count(k, v)
+        if res.get('has_attr'):
+            ctx.count('messages-with-attributes')
     for q in res['queries']:
         nontrivial = q['nonempty']
         ctx.case({'ids': ids if name is None else name, 'n': res['n_subsets'], 'q': q['q']}, nontrivial=nontrivial,
@@ -676,6 +815,15 @@ def absorb(ctx, task, res, ids, tag, name=None):
             ctx.count('with-slice')
         if q.get('ordinary'):
             ctx.count('bare-id-ordinary')
+        if q.get('cell'):
+            kind_, lt, n_, cs = q['cell'].split('|')[:4]
+            full = q['cell'].endswith('|full')
+            ctx.count('slice-site:%s n=%s%s' % (kind_, n_, ' (whole grid)' if full else ''))
+            ctx.count('slice-site-list:%s %s' % (kind_, lt))
+            if full:
+                # the grid relative to n contains the grid relative to every smaller number of matches met at the site
+                for c in cs.split(','):
+                    GRID_DONE.setdefault((kind_, int(c)), set()).add(q['q'])
     done = set()
     for f in res['findings']:
         k = (f['kind'], f['stage'], bool(f.get('empty_selection_on_compressed')))
@@ -735,7 +883,69 @@ def run(ctx):
                 alt = b2 if st == 'ok' else None
             tasks.append((dict(b=b, ids=ids, seed='%s:shape:%d' % (seed0, len(tasks)), budget=30 if quick else 120, alt=alt,
                                compiled=True, max_values=max_values), ids, 'shape:' + tag, None))
+    # -- the slice space on sibling lists with 0..6 matches; subsets with equal structure and different bitmaps;
+    #    templates over a small pool of ids (harness/c16gen.py)
+    rng = ctx.rng('families')
+    tb, tdd = tables_io.read_group()
+    class33 = sorted(i for i, v in tb.items() if i // 1000 == 33 and tables_io.unit_kind(v[1]) == 'c' and int(v[4]) >= 2)
+    rseqs = sorted(G.repeat_sequences(tb, tdd).values())
+    fam = []    # (Msg, task options)
+    # whole grids (quick tier): `/` on the top level, the blocks of one replication kind and sequence members; `.` on
+    # the attribute lists made by one bitmap operator; `>` on the top level and those attribute lists; in one of the
+    # two storage forms; the other sites and forms get a sample of the grid.  The choices rotate with the seed; the
+    # thorough tier takes every list type in both forms.
+    block = ('fixed-block', 'delayed-block')[ctx.seed % 2]
+    marker = (222, 223, 224, 225, 232)[ctx.seed % 5]
+    whole = {'grid:top': (['top'], True), 'grid:' + block: ([block, 'factor'], False), 'grid:sequence': (['sequence'], False),
+             'grid:attributes-%d' % marker: (['attributes'], True)}
+    for k, sh in enumerate(G.grid_shapes(rng, tb, tdd)):
+        for comp in (False, True):
+            n = 2 if quick else rng.randint(2, 3)
+            ids, per = G.build_grid_shape(rng, tb, sh, n)
+            lts, desc = whole.get(sh[2], ([], False)) if quick else (['top', 'fixed-block', 'delayed-block', 'sequence', 'attributes', 'factor'], True)
+            if quick and comp != bool((ctx.seed + k) % 2):
+                lts = []
+            fam.append((G.Msg(ids, per, n, comp, sh[2]),
+                        dict(budget=10, compiled=True, weight=10 ** 6 if lts else 10 ** 5, parts=4 if lts else 1,
+                             grid=dict(full_lts=lts, full_desc=desc, per_cell=1, selectors=0.02, zero_sites=2, max_sites=24, sample=12))))
+    for n in range(1, 7):
+        for comp in ((False, True) if not quick else (bool((n + ctx.seed) % 2),)):
+            ids, per, tag = G.bitmap_case(rng, tb, class33, n, rseqs)
+            fam.append((G.Msg(ids, per, n, comp, 'subset-grid'),
+                        dict(budget=10, compiled=True, weight=3 * 10 ** 5,
+                             grid=dict(max_sites=4, sample=6, subset_grid=True, subset_bodies=2 if quick else 3))))
+    for k in range(60 if quick else 700):
+        n = 2 + k % 5
+        ids, per, tag = G.bitmap_case(rng, tb, class33, n, rseqs)
+        fam.append((G.Msg(ids, per, n, rng.random() < 0.2, tag),
+                    dict(budget=24, compiled=rng.random() < 0.5, sweep=True,
+                         grid=dict(full=False, max_sites=10, sample=10, selectors=0.3, zero_sites=1))))
+    for k in range(30 if quick else 500):
+        ids, pool = G.pool_template(rng, tb, rseqs)
+        n = rng.randint(1, 4)
+        per = [{i: G.distinct_values(tb, i, rng, 60) for i in pool} for _ in range(n)]
+        fam.append((G.Msg(ids, per, n, rng.random() < 0.5, 'pool'),
+                    dict(budget=20, compiled=rng.random() < 0.5,
+                         grid=dict(full=False, max_sites=12, sample=14, selectors=0.15, zero_sites=1))))
+    fam = [(m, o) for (m, o) in fam if not excluded(m.ids)]
+    built = set(id(m) for m in G.build_all(drv, treq, [m for m, _ in fam], rng))
+    for m, opts in fam:
+        tag = m.tag.split(':')[0] if m.tag.startswith('bitmap') else m.tag
+        if id(m) not in built:
+            ctx.count('not-built:%s:%s' % (tag, m.vals))
+            continue
+        alt = None
+        if m.comp:
+            st, b2, _ = C.impl_encode(C.make_message_json(m.ids, P.py_inputs(m.vals), False))
+            alt = b2 if st == 'ok' else None
+        t = dict(opts, b=m.b, ids=m.ids, seed='%s:fam:%d' % (seed0, len(tasks)), alt=alt, max_values=max_values)
+        parts = t.pop('parts', 1)
+        for k in range(parts):
+            tasks.append((dict(t, part=(k, parts)) if parts > 1 else t, m.ids, tag, None))
     # -- generated
+    site_sample = dict(full=False, max_sites=6, sample=8, selectors=0.15, zero_sites=1)
+    for t in tasks:
+        t[0].setdefault('grid', site_sample)
     rng = ctx.rng('main')
     n_gen = 110 if quick else 2400
     done = 0
@@ -759,7 +969,7 @@ def run(ctx):
                 st2, b2, _ = C.impl_encode(C.make_message_json(c.ids, P.py_inputs(c.valss), False, edition=c.edition))
                 alt = b2 if st2 == 'ok' else None
             tasks.append((dict(b=b, ids=c.ids, seed='%s:gen:%d' % (seed0, len(tasks)), budget=22 if quick else 32, alt=alt,
-                               compiled=rng.random() < 0.5, max_values=max_values), c.ids, 'generated', None))
+                               compiled=rng.random() < 0.5, max_values=max_values, grid=site_sample), c.ids, 'generated', None))
     # -- corpus
     d1 = os.path.join(core.REPO, 'tests', 'data')
     d2 = os.path.join(core.REPO, 'tests', 'benchmark_data')
@@ -779,18 +989,45 @@ def run(ctx):
             ctx.count('excluded:wiring-open-finding')
             continue
         tasks.append((dict(b=raw, ids=ids, seed='%s:file:%s' % (seed0, os.path.basename(path)), budget=40 if quick else 160,
-                           alt=None, compiled=True, corpus=True, max_values=max_values), ids, 'corpus', os.path.basename(path)))
+                           alt=None, compiled=True, corpus=True, max_values=max_values, grid=site_sample), ids, 'corpus',
+                      os.path.basename(path)))
     # -- evaluate
+    t_build = time.time() - ctx.t0
+    t0 = time.time()
     pool = multiprocessing.Pool(min(15, os.cpu_count() or 2))
     try:
         # big ones first
-        order = sorted(range(len(tasks)), key=lambda i: -len(tasks[i][0]['b']))
+        order = sorted(range(len(tasks)), key=lambda i: -(tasks[i][0].get('weight') or len(tasks[i][0]['b'])))
         results = pool.map(evaluate, [tasks[i][0] for i in order], chunksize=1)
     finally:
         pool.terminate()
     by = dict(zip(order, results))
+    GRID_DONE.clear()
+    if os.environ.get('VERIF_TIMING'):
+        print('timing: build %.1fs, evaluation %.1fs, worker time %.1fs' % (t_build, time.time() - t0, sum(r.get('_time', 0) for r in results)))
+        agg = {}
+        for i in by:
+            a = agg.setdefault(tasks[i][2].split(':')[0], [0, 0, 0])
+            a[0] += 1
+            a[1] += by[i].get('_time', 0)
+            a[2] += len(by[i].get('queries', []))
+        for k in sorted(agg):
+            print('  %-12s %4d tasks %7.1fs %7d queries' % (k, agg[k][0], agg[k][1], agg[k][2]))
+        for i in sorted(by, key=lambda i: -by[i].get('_time', 0))[:8]:
+            print('  task %s part %s: %.1fs, %d queries' % (tasks[i][2], tasks[i][0].get('part'), by[i].get('_time', 0), len(by[i].get('queries', []))))
     for i, (task, ids, tag, name) in enumerate(tasks):
         absorb(ctx, task, by[i], ids, tag, name)
+    # the systematic slice space: which (step kind, n) were covered by a whole grid
+    missing = []
+    for kind_ in ('/', '.', '>', '@'):
+        for n_ in range(1 if kind_ == '@' else 0, G.MAX_N + 1):
+            if len(GRID_DONE.get((kind_, n_), ())) < len(G.grid(n_)):
+                missing.append('%s n=%d' % (kind_, n_))
+    ctx.count('slice-grid-cells-complete', 4 * (G.MAX_N + 1) - 1 - len(missing))
+    if missing:
+        ctx.count('slice-grid-cells-incomplete', len(missing))
+        ctx.notes.append('slice grid not covered completely at: %s' % ', '.join(missing))
+        print('C16 NOTE: slice grid not covered completely at: %s' % ', '.join(missing))
     run_pyslice(ctx, drv)
 
 
